@@ -114,6 +114,16 @@ func shortName(key string) string {
 	return k
 }
 
+// countBuiltin: the effectful builtins take part in calls("builtin:<name>") like ordinary callees.
+func countBuiltin(e *Enc, name string) {
+	switch name {
+	case "append", "copy", "delete":
+		if e.fc != nil {
+			e.bumpCallCount("builtin:" + name)
+		}
+	}
+}
+
 func (e *Enc) call(site ssa.Instruction, cc *ssa.CallCommon, rt types.Type) Value {
 	// builtins
 	if b, ok := cc.Value.(*ssa.Builtin); ok {
@@ -125,10 +135,12 @@ func (e *Enc) call(site ssa.Instruction, cc *ssa.CallCommon, rt types.Type) Valu
 				btypes = append(btypes, a.Type())
 			}
 			e.atCallAsserts(site, "builtin:"+b.Name(), bargs, btypes)
+			countBuiltin(e, b.Name())
 			r := e.builtin(site, b, cc, rt)
 			e.atCallAssertsPhase(site, "builtin:"+b.Name(), bargs, btypes, true, r, rt)
 			return r
 		}
+		countBuiltin(e, b.Name())
 		return e.builtin(site, b, cc, rt)
 	}
 	var args []Value
@@ -959,6 +971,10 @@ func (e *Enc) bumpCallCount(key string) {
 }
 
 func (e *Enc) callCount(h *HeapState, suffix string) Term {
+	if e.callQueries == nil {
+		e.callQueries = map[string]bool{}
+	}
+	e.callQueries[suffix] = true
 	var ts []Term
 	var keys []string
 	for k := range e.callKeys {
